@@ -25,6 +25,8 @@ pub enum Output {
     StreamErr(u8, u8),
     /// the closure leaves through `return <value>` before its last expression
     EarlyReturn(Val),
+    /// the closure's value is a range `1..n`: one result per element
+    Range(u8),
 }
 
 #[derive(Clone, Debug, PartialEq, Serialize, Deserialize)]
@@ -111,6 +113,7 @@ pub fn strategy() -> BoxedStrategy<C19Case> {
             2 => (1u8..5).prop_map(Output::Stream),
             1 => (2u8..5, 0u8..4).prop_map(|(n, k)| Output::StreamErr(n, k % n)),
             1 => val_out().prop_map(Output::EarlyReturn),
+            1 => (1u8..5).prop_map(Output::Range),
         ],
         prop_oneof![8 => Just(Broken::No), 2 => Just(Broken::RuntimeError), 1 => Just(Broken::BadBuiltinArg), 1 => Just(Broken::StreamIntoAppend), 1 => Just(Broken::Parse), 1 => Just(Broken::NoRun)],
         (prop_oneof![3 => Just(false), 1 => Just(true)], proptest::bool::weighted(0.15), prop_oneof![8 => Just(0u16), 1 => 1u16..6, 1 => Just(3000u16)]),
@@ -201,6 +204,7 @@ fn render(def: &Def) -> String {
         Output::Single(v) => s.push_str(&format!("    {}\n", v.nu())),
         Output::Values(vs) => s.push_str(&format!("    [{}]\n", vs.iter().map(|v| v.nu()).collect::<Vec<_>>().join(", "))),
         Output::Stream(n) => s.push_str(&format!("    1..{n} | each {{|i| $\"s($i)\"}}\n")),
+        Output::Range(n) => s.push_str(&format!("    1..{n}\n")),
         Output::EarlyReturn(v) => s.push_str(&format!("    if ($frame.topic | str ends-with \".call\") {{ return ({}) }}\n    \"unreachable\"\n", v.nu())),
         Output::StreamErr(n, k) => s.push_str(&format!(
             "    1..{n} | each {{|i| if $i == {} {{ error make {{msg: \"late\"}} }} else {{ $\"s($i)\" }} }}\n",
@@ -218,6 +222,7 @@ fn expected_values(def: &Def) -> Option<Vec<serde_json::Value>> {
         Output::Values(vs) => Some(vs.iter().map(|v| v.json()).collect()),
         Output::Stream(n) => Some((1..=*n).map(|i| serde_json::json!(format!("s{i}"))).collect()),
         Output::EarlyReturn(v) => Some(vec![v.json()]),
+        Output::Range(n) => Some((1..=*n).map(|i| serde_json::json!(i)).collect()),
         Output::StreamErr(..) => None,
     }
 }
